@@ -233,6 +233,11 @@ func main() {
 		"/^A (\\d+) (\\S+)/ {\n  $2 < $1 {\n    c0++\n  }\n}\n", "/^A (\\d+) (\\d+\\.\\d+)/ {\n  $2 < $1 {\n    c0++\n  }\n  gf = $1 * $2 - $1\n}\n",
 		"/^A (\\d+)/ {\n  gi = $1 & 3 | $1 << 2\n  gf = gf + $1\n}\n", "/^A (\\S+)/ {\n  gi = $1 =~ /x/\n}\n",
 		"/^A (\\S+)/ {\n  $1 =~ /x(\\d+)/ {\n    gi = $1\n  }\n}\n", "/^A (/ {\n  c0++\n}\n",
+		// a Bool where a string or an int is popped: the checker unifies through LeastUpperBound (family: WMixed)
+		"/^A (\\d+)/ {\n  c1[$1 > 2]++\n}\n", "/^A (\\d+)/ {\n  gi = len($1 > 2)\n}\n",
+		"/^A (\\d+) (\\S+)/ {\n  gi = strtol($2, $1 > 2)\n}\n", "/^A (\\d+) (\\d+\\.\\d+)/ {\n  gi = strtol($1, $2)\n}\n",
+		"/^A (\\d+)/ {\n  tx = subst(\"a\", \"b\", $1 > 2)\n}\n", "/^A (\\d+)/ {\n  ($1 > 2) == ($1 < 5) {\n    c0++\n  }\n}\n",
+		"/^A (\\d+)/ {\n  strptime($1, \"2006\")\n}\n", "/^A (\\d+)/ {\n  ($1 > 2) =~ /x/ {\n    c0++\n  }\n}\n",
 		// a group name used twice in one pattern: symbol.InsertAlias never reports it, the first group wins
 		"/^A (?P<n>\\d+) (?P<n>\\S+)/ {\n  gi = $n\n  tx = $2\n}\n",
 	} {
